@@ -46,7 +46,9 @@ class Engine:
         self.feature_group_collection: Dict[Type[FeatureGroup], Set[Feature]] = defaultdict(set)
 
         # use global filters
-        self.global_filter = global_filter
+        # Planning records the matched filters in the filter's collection: work on a copy so that the caller's object
+        # can be passed to another call without carrying over the state of this one.
+        self.global_filter = deepcopy(global_filter) if global_filter is not None else None
 
         # Tracks feature relation to its parents
         self.feature_link_parents: Dict[UUID, Set[UUID]] = defaultdict(set)
